@@ -18,6 +18,7 @@ receives the request with the prefix stripped and X-Forwarded-For added; targets
 import copy
 import json
 import os
+import time
 import concurrent.futures as cf
 import vlib
 from vlib import Ctx, run_tlc, build_harness, run_bin, parse_jsonl, SPEC
@@ -34,8 +35,9 @@ SENS = {  # deviation / plausible bug -> what TLC must report
     "BodyTruncatedOk": ("invariant", "Inv_Faithful"),
 }
 SENS_QUICK = ["NoReadTimeout", "CloseDelimitedLost", "UnmodelledStatusIs502", "ChunkedTruncatedOk", "MapErrTo500", "ForwardUnstripped"]
-LB_SENS_QUICK = ["NoLock", "WrapLate"]
-LB_SENS = {"NoLock": "Inv_Rotation", "IncrementOutsideLock": "Inv_Rotation", "WrapLate": None, "RandomOffByOne": "Inv_InSet"}
+LB_SENS_QUICK = ["NoLock", "SelectOnCloneWriteBack", "WrapLate"]
+LB_SENS = {"NoLock": "Inv_Rotation", "IncrementOutsideLock": "Inv_Rotation", "SelectOnCloneWriteBack": "Inv_Rotation",
+           "WrapLate": None, "RandomOffByOne": "Inv_InSet"}
 PROXY_ACTIONS = ["P_Strip", "P_Connect", "P_Write", "P_Read", "P_Map", "Up_Send", "Up_Close", "Tick"]
 LB_ACTIONS = ["A_Lock", "A_SelRead", "A_SelWrite", "A_Unlock"]
 
@@ -45,12 +47,28 @@ def _run_tlc(*a, **kw):
     exit status 13 is TLC's code for a liveness violation and nothing else."""
     try:
         return run_tlc(*a, **kw)
+    except OSError as e:
+        raise vlib.ToolError("cannot run TLC: %s" % e)
     except vlib.ToolError as e:
         if "TLC failed rc=13" not in str(e):
             raise
         r = vlib.TLCResult()
         r.rc, r.violation, r.violated_name, r.out = 13, "temporal", None, str(e)
         return r
+
+
+def _run_harness(path, args, **kw):
+    """the harness opens thousands of loopback connections and threads on a shared machine: a run that dies of a
+    transient OS refusal (its own panic, non-zero exit) is repeated once before it becomes a tool error"""
+    try:
+        p = run_bin(path, args, **kw)
+    except OSError as e:          # fork / pipe refused by the OS: a tool error, not an internal error of the check
+        raise vlib.ToolError("cannot run the harness: %s" % e)
+    if p.returncode != 0:
+        vlib.log("proxy %s exited %s (%s); retrying once" % (args[0], p.returncode, p.stderr[-300:].strip()))
+        time.sleep(5)
+        p = run_bin(path, args, **kw)
+    return p
 
 
 def _gen_lines(r, first_id):
@@ -77,6 +95,10 @@ def _thin_handler_timeouts(lines, keep):
     return out
 
 
+def _is_known(ctx, devs):
+    return any(ctx.known.is_open(ctx.prop, d) for d in (devs or []))
+
+
 def _report(ctx, what_prefix, case_id, devs, obj):
     """one mismatch: attributed to a deviation (known finding if listed open) or a violation"""
     devs = devs or []
@@ -92,7 +114,7 @@ def _validate_trace(ctx, name, records, work):
     path = os.path.join(work, name + ".ndjson")
     keep = ("id", "entry", "req", "route", "connected", "segs", "term", "got", "late", "seenok", "seen")
     vlib.write_lines(path, [{k: r[k] for k in keep} for r in records])
-    t = run_tlc("Trace_Proxy.tla", "Trace_Proxy.cfg", D, workers=1, env={"TRACE": path}, timeout=1200, work_id="c09", deque=True)
+    t = _run_tlc("Trace_Proxy.tla", "Trace_Proxy.cfg", D, workers=1, env={"TRACE": path}, timeout=1200, work_id="c09", deque=True)
     ctx.add_tlc("trace validation: %s (%d records)" % (name, len(records)), t)
     os.remove(path)
     summ = [p for p in t.prints if isinstance(p, dict) and "checked" in p]
@@ -105,10 +127,11 @@ def _validate_trace(ctx, name, records, work):
 
 
 def _validate_lb(name, records, work, ctx=None):
-    """Trace_LoadBalancer.tla: accepted iff NotAccepted is violated. Returns (accepted, groups linearised)"""
+    """Trace_LoadBalancer.tla: accepted iff NotAccepted is violated. Returns (accepted, groups linearised, groups whose
+    per-target counts are impossible for a strict rotation)"""
     path = os.path.join(work, name + ".ndjson")
     vlib.write_lines(path, records)
-    t = run_tlc("Trace_LoadBalancer.tla", "Trace_LoadBalancer.cfg", D, workers=1, env={"TRACE": path}, timeout=900, work_id="c09", deque=True)
+    t = _run_tlc("Trace_LoadBalancer.tla", "Trace_LoadBalancer.cfg", D, workers=1, env={"TRACE": path}, timeout=900, work_id="c09", deque=True)
     if ctx is not None:
         ctx.add_tlc("trace validation: %s (%d records)" % (name, len(records)), t)
     os.remove(path)
@@ -116,7 +139,10 @@ def _validate_lb(name, records, work, ctx=None):
     accepted = t.violation == "invariant" and t.violated_name == "NotAccepted"
     if t.violation is not None and not accepted:
         raise vlib.ToolError("Trace_LoadBalancer failed: %s" % t.out[-1500:])
-    return accepted, groups
+    bc = [p for p in t.prints if isinstance(p, dict) and "badcounts" in p]
+    if not bc:
+        raise vlib.ToolError("Trace_LoadBalancer printed no count verdict: %s" % t.out[-1500:])
+    return accepted, groups, bc[0]["badcounts"]
 
 
 def run(tier, replay):
@@ -232,12 +258,29 @@ def run(tier, replay):
             lines = [x for i, x in enumerate(lines) if (i + ctx.seed) % 3 == 0]
         if not thorough and key == "timing_long":
             lines = [x for i, x in enumerate(lines) if (i + ctx.seed) % 6 == 0]
-        p = run_bin(proxy, ["replay", str(timeout_ms), str(ticks), "32"], stdin_data="\n".join(json.dumps(x) for x in lines) + "\n", timeout=2400)
+        p = _run_harness(proxy, ["replay", str(timeout_ms), str(ticks), "32"], stdin_data="\n".join(json.dumps(x) for x in lines) + "\n", timeout=2400)
         out = parse_jsonl(p.stdout)
         if p.returncode != 0 or len(out) != len(lines):
             raise vlib.ToolError("proxy replay %s failed rc=%s, %d of %d results: %s" % (cfg, p.returncode, len(out), len(lines), p.stderr[-1500:]))
         by_id = {x["id"]: x for x in lines}
         bad = 0
+        # confirmation: a mismatch that no open deviation explains is executed once more, in a fresh harness process
+        # with little concurrency; only what fails again is reported (defects of the code are deterministic,
+        # a busy shared machine is not)
+        suspects = [o["id"] for o in out if not o["ok"] and not _is_known(ctx, o["devs"])]
+        unconfirmed = 0
+        if suspects:
+            time.sleep(2)
+            p2 = _run_harness(proxy, ["replay", str(timeout_ms), str(ticks), "4"],
+                              stdin_data="\n".join(json.dumps(by_id[i]) for i in suspects) + "\n", timeout=2400)
+            again = {o["id"]: o for o in parse_jsonl(p2.stdout)}
+            if p2.returncode != 0 or len(again) != len(suspects):
+                raise vlib.ToolError("proxy replay (confirmation) failed rc=%s: %s" % (p2.returncode, p2.stderr[-1500:]))
+            for i, o in enumerate(out):
+                if o["id"] in again:
+                    if again[o["id"]]["ok"]:
+                        unconfirmed += 1
+                    out[i] = again[o["id"]]
         for o in out:
             ctx.cov["evaluations"] += 1
             if o["nontrivial"]:
@@ -257,7 +300,7 @@ def run(tier, replay):
                             "answer": o["trace"]["got"], "forwarded": o["trace"]["seen"]})
         ctx.cov["traces_validated_against_impl"] += len(out)
         ctx.add_part("behaviours " + cfg, generated=total, replayed=len(out), mismatches=bad,
-                     retried=len([o for o in out if o.get("retried")]))
+                     retried=len([o for o in out if o.get("retried")]), mismatches_not_confirmed_on_rerun=unconfirmed)
 
     # self-test of the spec -> code direction: one expected value of a vector flipped must be reported, unattributed
     if selftest_vec is not None:
@@ -273,13 +316,31 @@ def run(tier, replay):
 
     # ------------------------------------------------------------------ 3a. byte-offset cuts, validated by TLC
     nseeds, stall_mod, nbig = (24, 1, 6) if thorough else (9, 3, 3)   # nbig: 30-90 KB bodies, cut at sampled offsets
-    p = run_bin(proxy, ["cuts", "300", "32", str(stall_mod), str(nseeds), str(nbig)], timeout=2400)
+    p = _run_harness(proxy, ["cuts", "300", "32", str(stall_mod), str(nseeds), str(nbig)], timeout=2400)  # = cut_args below
     cuts = parse_jsonl(p.stdout)
     if p.returncode != 0 or not cuts:
         raise vlib.ToolError("proxy cuts failed rc=%s: %s" % (p.returncode, p.stderr[-1500:]))
+    cut_args = ["cuts", "300", "32", str(stall_mod), str(nseeds), str(nbig)]
     for name, recs in (("byte-cuts", cuts), ("replayed-behaviours", observations)):
         checked, nontrivial, rejected = _validate_trace(ctx, name, recs, work)
         by_id = {r["id"]: r for r in recs}
+        suspects = [rj["id"] for rj in rejected if not _is_known(ctx, rj["devs"])]
+        if suspects and name == "byte-cuts":
+            # confirmation, as above: the unexplained cuts are executed again (same seed => same ids) and re-validated
+            ids = os.path.join(work, "only-ids.txt")
+            with open(ids, "w") as f:
+                f.write("\n".join(suspects) + "\n")
+            time.sleep(2)
+            p2 = _run_harness(proxy, cut_args[:2] + ["4"] + cut_args[3:], timeout=2400, env={"VERIF_ONLY_IDS": ids})
+            os.remove(ids)
+            again = parse_jsonl(p2.stdout)
+            if p2.returncode != 0 or sorted(r["id"] for r in again) != sorted(suspects):
+                raise vlib.ToolError("proxy cuts (confirmation) failed rc=%s: %s" % (p2.returncode, p2.stderr[-1500:]))
+            _, _, rejected2 = _validate_trace(ctx, "byte-cuts-confirmation", again, work)
+            still = {rj["id"]: rj for rj in rejected2}
+            by_id.update({r["id"]: r for r in again})
+            ctx.add_part("trace byte-cuts confirmation", rerun=len(suspects), rejected_again=len(still))
+            rejected = [rj for rj in rejected if rj["id"] not in suspects] + list(still.values())
         if name == "byte-cuts":
             ctx.cov["evaluations"] += checked
             ctx.cov["distinct_nontrivial"] += nontrivial
@@ -293,12 +354,14 @@ def run(tier, replay):
             ctx.sample({"cut": c["id"], "delivered": [s["k"] for s in c["segs"]], "then": c["term"], "answer": c["got"]})
 
     # ------------------------------------------------------------------ 3b. balancer logs linearised by TLC
-    p = run_bin(proxy, ["lb", "8" if thorough else "4", "3"], timeout=900)
+    # small groups (1..4 targets x 1..K threads x 3 calls, both modes, locked and through proxy_handler) and stress rounds:
+    # 8 threads x 200 (thorough: 300) proxy_handler calls each on one round-robin balancer against fast upstreams
+    p = _run_harness(proxy, ["lb", "8" if thorough else "4", "3"] + (["12", "300"] if thorough else ["4", "200"]), timeout=900)
     lb = parse_jsonl(p.stdout)
     ngroups = len([x for x in lb if x["k"] == "cfg"])
     if p.returncode != 0 or ngroups == 0:
         raise vlib.ToolError("proxy lb failed rc=%s: %s" % (p.returncode, p.stderr[-1500:]))
-    accepted, groups = _validate_lb("balancer", lb, work, ctx)
+    accepted, groups, badcounts = _validate_lb("balancer", lb, work, ctx)
     calls = [x for x in lb if x["k"] == "call"]
     # measured, not assumed: in how many multi-thread groups did selections of different threads alternate?
     interleaved, cur = 0, []
@@ -313,7 +376,21 @@ def run(tier, replay):
     ctx.cov["evaluations"] += len(calls)
     ctx.cov["distinct_nontrivial"] += interleaved
     ctx.cov["traces_validated_against_impl"] += ngroups
-    ctx.add_part("balancer", groups=ngroups, selections=len(calls), groups_linearised=groups, groups_with_interleaved_threads=interleaved)
+    ctx.add_part("balancer", groups=ngroups, selections=len(calls), groups_linearised=groups, groups_with_interleaved_threads=interleaved,
+                 stress_rounds=len([x for x in lb if x["k"] == "cfg" and x["t"] == 8 and x["via"] == "handler" and x["mode"] == "RoundRobin"]),
+                 groups_with_impossible_counts=len(badcounts))
+    cfgs = [x for x in lb if x["k"] == "cfg"]
+    for gi in badcounts:
+        gcfg = cfgs[gi - 1]
+        cnt = {}
+        n = 0
+        for x in lb:
+            if x["k"] == "cfg":
+                n += 1
+            elif n == gi:
+                cnt[x["r"]] = cnt.get(x["r"], 0) + 1
+        ctx.violation("round-robin over %d targets, %d threads (%s): targets were chosen %s times; a strict rotation gives floor/ceil(T/n) each"
+                      % (gcfg["nt"], gcfg["t"], gcfg["via"], dict(sorted(cnt.items()))), {"kind": "balancer-counts", "group": gi, "cfg": gcfg, "counts": cnt})
     if not accepted:
         failing = []
         n = 0
@@ -323,7 +400,7 @@ def run(tier, replay):
             if n == groups + 1:
                 failing.append(x)
         ctx.violation("select_target log has no linearisation that is a rotation / inside the target set (group %d: %s)" % (groups + 1, json.dumps(failing[:1])),
-                      {"kind": "balancer-trace", "group": failing})
+                      {"kind": "balancer-trace", "group": failing[:400]})
     else:
         ctx.sample({"balancer_group": [x for x in lb if x["nt"] == 3 and x["mode"] == "RoundRobin" and x["via"] == "handler"][:8]})
 
@@ -348,7 +425,7 @@ def run(tier, replay):
             grp.append(dict(x))
     if len(grp) > 3:
         grp[2]["r"], grp[3]["r"] = grp[3]["r"], grp[2]["r"]              # two consecutive selections swapped
-        acc, _ = _validate_lb("self-test-balancer", grp, work)
+        acc, _, _ = _validate_lb("self-test-balancer", grp, work)
         if acc:
             raise vlib.ToolError("self-test: Trace_LoadBalancer accepted a log with two selections swapped")
     ctx.add_part("self-test", corrupted_vectors_reported=2 if selftest_vec is not None else 0, corrupted_proxy_records_rejected=2,
